@@ -28,7 +28,7 @@ impl Prop for C04 {
 pub fn main(ctx: &Ctx) {
     ctx.assume("sequential histories only (concurrency is C05); a planted hot-only orphan may be repaired into the canonical store by a drain (documented) and is then adopted by the model, counted under excluded");
     run_committed_replays(ctx, &C04);
-    run_pbt(ctx, &C04, ctx.tier.pick(4_000, 150_000));
+    run_pbt(ctx, &C04, ctx.tier.pick(100_000, 2_000_000));
 }
 
 pub fn replay(ctx: &Ctx, v: &serde_json::Value) -> Option<i32> {
